@@ -39,6 +39,7 @@ type Engine struct {
 	guarded     map[string]string // heap name -> mutex heap path (see locks.go)
 	bitsUsed    map[[2]int]bool
 	immutable   map[string]bool // heap names of fields that are only written at construction
+	nonNilMaps  map[string]bool // typeName of map types with non-nil values
 	repo        string
 }
 
@@ -94,6 +95,12 @@ func loadEngine(repo string) (*Engine, error) {
 		return nil, err
 	}
 	eng.cf = cf
+	eng.nonNilMaps = map[string]bool{}
+	for _, ts := range cf.NonNilMaps {
+		if t := eng.parseType(ts); t != nil {
+			eng.nonNilMaps[eng.typeName(t.Underlying())] = true
+		}
+	}
 	eng.immutable = map[string]bool{}
 	for _, f := range cf.Immutable {
 		eng.immutable["F$"+f] = true
